@@ -16,5 +16,6 @@ func TestWorker(t *testing.T) {
 		"C35":  checkC35(t),
 		"C38b": checkC38b(t),
 		"C37b": checkC37b(t),
+		"C40":  checkC40(t),
 	})
 }
